@@ -67,6 +67,8 @@ def gen_cases(tier, seed):
             c.pop('prehistory', None)
             c['uneven'] = True
         c['tmax'] = c['tmin'] + r.choice([0.5, 2.0, 5.0])
+        if c.get('uneven'):
+            c['tmax'] = c['tmin'] + r.choice([0.02, 0.05])       # rates of several thousand per unit time: a short horizon keeps the run (and its draw log) small
         out.append(c)
     # larger networks with one dominant weight: candidate lists of 30-45 entries in which the heaviest outweighs the mean by more than 20x
     for j in range(60 if q else 1500):
